@@ -13,7 +13,7 @@ This is a mutation-testing exercise for a verification framework you know nothin
 
 YOUR TASK: produce a change to the library's source (files under src/, not tests) that BREAKS this property, such that
  1. the crate still compiles, both with and without `--features verif` (the feature `verif` only adds instrumentation hooks: lines starting with `#[cfg(feature = "verif")]` and the file src/verif.rs -- do NOT delete, move or edit those lines, and do not touch src/verif.rs; add your change around them);
- 2. the repository's existing test-suite still passes exactly as before: `flock /tmp/rm-suite.lock env CARGO_NET_OFFLINE=true cargo test --workspace --no-fail-fast --offline` must report 150 passed in total, with exactly the two pre-existing failures (`ogre_std::ogre_queues::full_sync::non_blocking_queue::tests::peek_test` and the doctest `src/lib.rs - (line 33)`). The tests use fixed /tmp/*.mmap files, hence the flock: never run two suites at once. A few tests are timing-sensitive under load (e.g. `undegradable_latencies`): re-run once before concluding that your change broke them;
+ 2. the repository's existing test-suite still passes exactly as before: `flock /tmp/rm-suite.lock timeout 900 env CARGO_NET_OFFLINE=true cargo test --workspace --no-fail-fast --offline` (always with that time limit: a hung run blocks everybody else) must report 150 passed in total, with exactly the two pre-existing failures (`ogre_std::ogre_queues::full_sync::non_blocking_queue::tests::peek_test` and the doctest `src/lib.rs - (line 33)`). The tests use fixed /tmp/*.mmap files, hence the flock: never run two suites at once. A few tests are timing-sensitive under load (e.g. `undegradable_latencies`): re-run once before concluding that your change broke them;
  3. the change is REALISTIC: it should look like something a maintainer could plausibly commit (an optimisation, a refactoring, a "fix" for something else, a reordering, a relaxed condition, an off-by-one in a rarely taken branch ...), small (a few lines, one or two sites), with an innocent-looking comment if any;
  4. it needs SOMETHING SPECIFIC TO MANIFEST -- a particular thread interleaving, a crash / fault / cancellation at a particular point, a multi-step sequence of operations, an unusual input or configuration (buffer size, number of streams, counter values, ...), or two cooperating sites that each look fine alone. A change that ordinary use would expose at once (first send fails, every event lost, ...) is NOT wanted. Be creative: prefer a mechanism that is different from the obvious ones (the obvious ones have been done already){avoid}.
 
